@@ -85,9 +85,10 @@ class StatThresholdAnomaliser(CollectiveAnomalyDetector):
         segments = self.change_detector_.transform(X)["labels"]
         # `X` can be a numpy array, which `pd.concat` does not accept.
         X = pd.DataFrame(X, index=segments.index)
-        df = pd.concat([X, segments], axis=1)
         anomalies = []
-        for _, segment in df.reset_index(drop=True).groupby("labels"):
+        # Group by the label values, not by a column name, as `X` may have a column
+        # named "labels" too.
+        for _, segment in X.reset_index(drop=True).groupby(segments.to_numpy()):
             segment_stat = self.stat(segment.iloc[:, 0].values)
             if (segment_stat < self.stat_lower) | (segment_stat > self.stat_upper):
                 anomalies.append((int(segment.index[0]), int(segment.index[-1] + 1)))
